@@ -3,6 +3,8 @@
 //	buffer | write <payload> ; read <k> ; next <n> ; seek <off> <whence> ; tidy ; reset ; grow <n>
 //	stream | write <payload> ; wbyte <b> ; wbool <0|1> ; wi16 <d> ; wi32 <d> ; wi64 <d> ; read <k> ; rbyte ;
 //	         tidy ; reset ; seek <off> <whence>
+//	item = op | `rep <k> ( op , op , ... )` (k rounds of the body; `$` in the body = round number mod 251)
+//	op   = [<letter>:] <operation>   (object selector, default a; several objects of the same kind may live in one case)
 //	<payload> = hex | "-" (empty) | "#<n>:<s>" (n bytes, byte j = (s+j) mod 256)
 //	          | "@<n>:<s>" (n bytes, byte j = byte (j mod 4) of the little-endian uint32 (s<<22)+j/4: no period, for large chunks)
 //
@@ -240,25 +242,6 @@ func bufObserve(b *iox.Buffer) string {
 	return by + " " + ln + " " + st + " " + pos + " " + cp
 }
 
-func runBuffer(ops []string) string {
-	b := &iox.Buffer{}
-	ss := &session{}
-	out := make([]string, 0, len(ops))
-	for _, o := range ops {
-		w := strings.Fields(o)
-		if len(w) == 0 {
-			continue
-		}
-		r := bufOp(ss, b, w)
-		if r == "bad-op" {
-			out = append(out, r)
-			break
-		}
-		out = append(out, r+" / "+bufObserve(b))
-	}
-	return strings.Join(out, " ; ")
-}
-
 // ---------------------------------------------------------------- stream
 
 func strOp(ss *session, s *iox.OctetsStream, w []string) string {
@@ -368,21 +351,95 @@ func strObserve(s *iox.OctetsStream) string {
 	return by + " " + ln + " " + pos
 }
 
-func runStream(ops []string) string {
-	s := &iox.OctetsStream{}
-	ss := &session{}
-	out := make([]string, 0, len(ops))
-	for _, o := range ops {
-		w := strings.Fields(o)
+// ---------------------------------------------------------------- script language
+
+const maxExpandedOps = 50000
+
+// expand replaces every item `rep <k> ( op , op , ... )` by k copies of its body; inside the body `$` stands for the
+// round number modulo 251 (so that every round can write different bytes). The driver (Lean) and the oracle (Python)
+// expand in exactly the same way.
+func expand(items []string) ([]string, bool) {
+	out := make([]string, 0, len(items))
+	for _, it := range items {
+		w := strings.Fields(it)
 		if len(w) == 0 {
 			continue
 		}
-		r := strOp(ss, s, w)
+		if w[0] != "rep" {
+			out = append(out, it)
+			continue
+		}
+		if len(w) < 5 || w[2] != "(" || w[len(w)-1] != ")" {
+			return nil, false
+		}
+		k, err := strconv.Atoi(w[1])
+		if err != nil || k < 0 || k > maxExpandedOps {
+			return nil, false
+		}
+		var body []string
+		for _, part := range strings.Split(strings.Join(w[3:len(w)-1], " "), ",") {
+			if part = strings.TrimSpace(part); part != "" {
+				body = append(body, part)
+			}
+		}
+		if len(out)+k*len(body) > maxExpandedOps {
+			return nil, false
+		}
+		for i := 0; i < k; i++ {
+			round := strconv.Itoa(i % 251)
+			for _, part := range body {
+				out = append(out, strings.ReplaceAll(part, "$", round))
+			}
+		}
+	}
+	return out, len(out) <= maxExpandedOps
+}
+
+// selector: an op may start with `<letter>:` naming the object it is applied to (default `a`); every object is a fresh
+// zero value on first use, all objects of a line live in the same process at the same time.
+func selector(w []string) (byte, []string) {
+	if len(w) > 0 && len(w[0]) == 2 && w[0][1] == ':' && w[0][0] >= 'a' && w[0][0] <= 'z' {
+		return w[0][0], w[1:]
+	}
+	return 'a', w
+}
+
+func runObjects(kind string, ops []string) string {
+	bufs := map[byte]*iox.Buffer{}
+	strs := map[byte]*iox.OctetsStream{}
+	ss := &session{}
+	out := make([]string, 0, len(ops))
+	for _, o := range ops {
+		sel, w := selector(strings.Fields(o))
+		if len(w) == 0 {
+			out = append(out, "bad-op")
+			break
+		}
+		var r, obs string
+		if kind == "buffer" {
+			b := bufs[sel]
+			if b == nil {
+				b = &iox.Buffer{}
+				bufs[sel] = b
+			}
+			if r = bufOp(ss, b, w); r != "bad-op" {
+				obs = bufObserve(b)
+			}
+		} else {
+			s := strs[sel]
+			if s == nil {
+				s = &iox.OctetsStream{}
+				strs[sel] = s
+			}
+			if r = strOp(ss, s, w); r != "bad-op" {
+				obs = strObserve(s)
+			}
+		}
 		if r == "bad-op" {
 			out = append(out, r)
 			break
 		}
-		out = append(out, r+" / "+strObserve(s))
+		out = append(out, r+" / "+obs)
 	}
 	return strings.Join(out, " ; ")
 }
@@ -404,20 +461,18 @@ func splitLine(line string) (string, []string, bool) {
 }
 
 func exec(c *hx.Ctx, line string) string {
-	head, ops, ok := splitLine(line)
+	head, items, ok := splitLine(line)
+	if !ok || (head != "buffer" && head != "stream") {
+		return "bad-op"
+	}
+	ops, ok := expand(items)
 	if !ok {
 		return "bad-op"
 	}
 	if len(ops) == 0 {
 		return "noop"
 	}
-	switch head {
-	case "buffer":
-		return runBuffer(ops)
-	case "stream":
-		return runStream(ops)
-	}
-	return "bad-op"
+	return runObjects(head, ops)
 }
 
 func main() { hx.Main(gen, exec) }
